@@ -93,7 +93,7 @@ def run_c12(rep, tier):
         forkbits = ['e_%d_%d' % (i, j) for (i, j) in [(0, 0), (1, 1), (2, 2), (3, 3), (4, 4), (0, 1), (1, 0), (2, 3), (3, 2)]]
         for k_, vals in enumerate(itertools.product([False, True], repeat=len(forkbits))):
             tasks.append((5, None, True, dict(zip(forkbits, vals)), k_ % 64 == 0))      # simplifier audit on every 64th fork (6 min each)
-    rep.cov['bounds'].update(n_max='5 (all 512 forks)' if tier == 'thorough' else '4 complete; 5: all loop-free graphs + 48 of the 496 remaining forks', orders='all 6 at n=3' + (', all 24 at n=4' if tier == 'thorough' else ''),
+    rep.cov['bounds'].update(n_max='5 (all 512 forks)' if tier == 'thorough' else '4 complete; 5: all loop-free graphs + 24 of the 496 remaining forks', orders='all 6 at n=3' + (', all 24 at n=4' if tier == 'thorough' else ''),
                              loop_bound='compute_SCCs while loops: n*n+n iterations; remaining-iteration guard is part of every query',
                              no_fold='n=2' + (' and n=3' if tier == 'thorough' else ''))
     # node values other than small ints (None, str, tuple, frozenset, float mixes): the algorithm only hashes and compares them
@@ -101,7 +101,7 @@ def run_c12(rep, tier):
         tasks.append((len(u), None, True, {}, False, u))
     graphs_covered = 0
     if tier == 'quick':
-        # n=5: the 16 forks without self-loops and a seeded sample of 48 others (each fork covers 65,536 five-node graphs), no simplifier audit
+        # n=5: the 16 forks without self-loops and a seeded sample of 24 others (each fork covers 65,536 five-node graphs), no simplifier audit
         r5 = rng('c12-n5')
         forkbits = ['e_%d_%d' % (i, j) for (i, j) in [(0, 0), (1, 1), (2, 2), (3, 3), (4, 4), (0, 1), (1, 0), (2, 3), (3, 2)]]
         seen = set()
@@ -109,7 +109,7 @@ def run_c12(rep, tier):
             fx = dict(zip(forkbits, (False,) * 5 + vals))
             seen.add(tuple(fx.values()))
             tasks.append((5, None, True, fx, False))
-        while len(seen) < 64:                                            # plus 48 seeded forks with self-loops
+        while len(seen) < 40:                                            # plus 24 seeded forks with self-loops
             fx = {k_: bool(r5.randrange(2)) for k_ in forkbits}
             if tuple(fx.values()) not in seen:
                 seen.add(tuple(fx.values()))
